@@ -296,8 +296,9 @@ def dump_result(res, module_syms, target, suffix):
     return " | ".join(out)
 
 
-def run(target, items, pie, allow_undef, unreachable=False, suffix="_sfx1"):
-    """returns (model line, implementation dump or error, Result or None, module symbols)"""
+def run(target, items, pie, allow_undef, unreachable=False, suffix="_sfx1", cut=None):
+    """returns (model line, implementation dump or error, Result or None, module symbols); cut: the text is fed to assemble() in two
+    chunks, items[:cut] and items[cut:]"""
     import gtirb_rewriting.assembler.assembler as As
     tg = TARGETS[target]
     m, msyms = make_module(target, pie)
@@ -306,8 +307,9 @@ def run(target, items, pie, allow_undef, unreachable=False, suffix="_sfx1"):
     res, err = None, None
     try:
         asm = As.Assembler(m, temp_symbol_suffix=suffix, allow_undef_symbols=allow_undef, trivially_unreachable=unreachable)
-        log.events.append("chunk")
-        asm.assemble("\n".join(it["line"] for it in items) + "\n", As.X86Syntax.INTEL if tg["intel"] else As.X86Syntax.ATT)
+        for part in ([items] if not cut else [items[:cut], items[cut:]]):
+            log.events.append("chunk")
+            asm.assemble("\n".join(it["line"] for it in part) + "\n", As.X86Syntax.INTEL if tg["intel"] else As.X86Syntax.ATT)
         res = asm.finalize()
     except Exception as e:   # noqa
         err = type(e).__name__
